@@ -1,18 +1,146 @@
 (* C02 — after any mutation an agent is coherent: optimizers, targets and critics follow.
    Property theorems only; each is closed by [exact] of a lemma proved in C02/Proofs.v.
-   The model (Evo/Evo.v + C02/Model.v) is tied to /repo by the correspondence check of harness/c02.py. *)
+   The model (Evo/Evo.v: mutate_kind / mutate_agent / reinit_opts / rebuild_shared / run_hooks / learn_agent / clone_agent /
+   select, and C02/Model.v: wf_registry, Coherent, mutate_pop, arch_mutate) is tied to /repo by the correspondence check of
+   harness/c02.py.
+
+   [Coherent a] = every optimizer of [a] (i) is registered, (ii) references exactly the exposed parameter cells of the
+   networks it is registered for ([same_refs]: same length, mutual inclusion) and (iii) carries the agent's current value
+   of its learning-rate attribute; every shared/target network has the architecture id of the evaluation network it
+   shadows; every network whose encoder is shared through a hook exposes no encoder parameters of its own.
+   [wf_registry r] (computed on the registry extracted from every real algorithm at check time) = no optimizer is registered
+   for a shared network; sharing encoders through a hook implies that activation mutations are skipped; optimizer names
+   are unique; shared networks are not evaluation networks and shadow one network. *)
 From Coq Require Import List NArith QArith Bool.
 Import ListNotations.
 From AgileV Require Import Evo.Heap Evo.Evo Evo.EvoProofs C02.Model C02.Proofs.
 Open Scope N_scope.
 
-(* NO DANGLING REFERENCE — in a coherent agent every cell an optimizer references is a cell the agent owns now. *)
+(* MUTATION COHERENT (one individual) — for every well-formed registry, every store, every mutation kind
+   (none / architecture / parameters / activation incl. the skip for policy-gradient algorithms / any hyper-parameter with
+   any new value), every shape of the mutated networks and every label: Mutations.mutation applied to a coherent
+   individual (the drawn mutation function, then re-creation of every shared network, then the hooks) yields a coherent
+   individual.  The fall-backs "no mutation methods" / "no activation" are the kinds MNone / MAct of the model. *)
+Theorem mutation_coherent : forall (k : mkind) (sh : list netshape) (label : N) (s : store) (a : agent),
+  wf_registry (a_reg a) = true -> Coherent a -> Coherent (snd (mutate_agent k sh label (s, a))).
+Proof. exact mutate_agent_coherent. Qed.
+Print Assumptions mutation_coherent.
+
+(* ... for a whole population: Mutations.mutation(population) with any vector of draws ... *)
+Theorem mutation_coherent_population : forall (ds : list draw) (w : world),
+  WfRegs w -> AllCoherent w -> AllCoherent (mutate_pop ds w).
+Proof. exact mutation_coherent_pop_lemma. Qed.
+Print Assumptions mutation_coherent_population.
+
+(* ... and lifted over every history: coherence (and well-formedness of the registries) is an invariant of every sequence
+   of learn / score / act / clone / mutation (any kind, any member) / tournament selection / discard, hence of every
+   sequence of generations (select, mutate, learn)^n of any length. *)
+Theorem generations_coherent : forall (w : world) (ops : list op),
+  WfRegs w -> AllCoherent w -> AllCoherent (run w ops) /\ WfRegs (run w ops).
+Proof. exact generations_coherent_lemma. Qed.
+Print Assumptions generations_coherent.
+
+(* NO DANGLING REFERENCE — in a coherent agent every cell an optimizer references is a cell the agent owns now ... *)
 Theorem opt_points_at_live_cells : forall a : agent, Coherent a -> refs_live a.
 Proof. exact coherent_refs_live_lemma. Qed.
 Print Assumptions opt_points_at_live_cells.
 
-(* POPULATION SHAPE — Mutations.mutation(population) returns as many members as it received. *)
-Theorem population_size : forall (ds : list draw) (w : world),
-  length (w_pop (mutate_pop ds w)) = length (w_pop w).
-Proof. exact (fun ds w => mutate_from_length ds 0%nat w). Qed.
-Print Assumptions population_size.
+(* ... hence in every population reachable from a coherent one, after whatever mutations. *)
+Theorem opt_points_at_live_cells_reachable : forall (w : world) (ops : list op),
+  WfRegs w -> AllCoherent w -> forall a, In a (w_pop (run w ops)) -> refs_live a.
+Proof. exact all_refs_live_lemma. Qed.
+Print Assumptions opt_points_at_live_cells_reachable.
+
+(* LEARN MOVES THE TRAINED NETWORKS (footprint) — one learn() of a coherent agent whose optimizers are registered for
+   network attributes it has writes every cell any of its optimizers references: afterwards the cell holds a content
+   identifier that did not exist before the call. *)
+Theorem learn_moves_trained : forall (st : list (name * nat)) (s : store) (a : agent) (o : opt) (l : loc),
+  Coherent a -> (forall c n, In c (r_opts (a_reg a)) -> In n (oc_nets c) -> In n (net_names a)) ->
+  Forall (fun l => l < s_next s) (agent_locs a) ->
+  In o (a_opts a) -> In l (o_refs o) ->
+  s_fresh s <= rd (fst (learn_agent st (s, a))) l.
+Proof. exact learn_moves_lemma. Qed.
+Print Assumptions learn_moves_trained.
+
+(* POPULATION SHAPE — Mutations.mutation(population) returns as many members, in the same order (same index sequence), and
+   member j reports the label of the mutation it received. *)
+Theorem population_shape : forall (ds : list draw) (w : world),
+  length (w_pop (mutate_pop ds w)) = length (w_pop w) /\
+  map a_index (w_pop (mutate_pop ds w)) = map a_index (w_pop w) /\
+  (forall j d, nth_error ds j = Some d -> (j < length (w_pop w))%nat ->
+               option_map a_mut (nth_error (w_pop (mutate_pop ds w)) j) = Some (snd d)).
+Proof. exact population_shape_lemma. Qed.
+Print Assumptions population_shape.
+
+(* ARCHITECTURE FOLLOWS THE POLICY — architecture_mutate at descriptor level, for ANY meaning [net_apply] of the mutation
+   methods: the policy's sampled method is resolved on the policy (result p', finally applied method, returned argument
+   dictionary d); every other evaluation network receives exactly that resolved method with exactly d, or nothing at all
+   when the policy's call was a no-op (bound hit). *)
+Theorem arch_follows_policy : forall (arch meth args : Type)
+  (net_apply : meth -> args -> arch -> arch * option meth * args) (no_args : args) (m : meth) (pol : arch) (others : list arch),
+  exists d,
+    net_apply m no_args pol = (fst (fst (arch_mutate net_apply no_args m pol others)),
+                               snd (arch_mutate net_apply no_args m pol others), d) /\
+    snd (fst (arch_mutate net_apply no_args m pol others)) =
+      map (follow_one net_apply (snd (arch_mutate net_apply no_args m pol others)) d) others.
+Proof. exact (@arch_follows_lemma). Qed.
+Print Assumptions arch_follows_policy.
+
+(* ... consequently (when replaying a resolved method with its returned arguments reproduces the result, which is C03's
+   statement about the modules): as many networks as before; a no-op on the policy leaves every other network alone;
+   a network that had the policy's architecture has the policy's new architecture. *)
+Theorem arch_same_before_same_after : forall (arch meth args : Type)
+  (net_apply : meth -> args -> arch -> arch * option meth * args) (no_args : args) (m : meth) (pol : arch) (others : list arch),
+  replayable net_apply no_args ->
+  let r := arch_mutate net_apply no_args m pol others in
+  length (snd (fst r)) = length others /\
+  (snd r = None -> snd (fst r) = others) /\
+  (snd r <> None -> forall i, nth_error others i = Some pol -> nth_error (snd (fst r)) i = Some (fst (fst r))).
+Proof. exact (@arch_same_before_same_after). Qed.
+Print Assumptions arch_same_before_same_after.
+
+(* SHARED NETWORKS FOLLOW — right after Mutations.mutation the architecture id of every shared/target network is the one of
+   the evaluation network it shadows, whatever the individual looked like before (no coherence hypothesis). *)
+Theorem shared_arch_follows : forall (x : lstate),
+  WfReg (a_reg (snd x)) -> arch_ok (snd (rebuild_shared x)).
+Proof. exact rebuild_shared_arch_ok. Qed.
+Print Assumptions shared_arch_follows.
+
+(* the mutation hooks leave every hook-shared network without exposed encoder parameters, from any state *)
+Theorem hooks_establish_sharing : forall x : lstate, hooked (snd (run_hooks x)).
+Proof. exact run_hooks_hooked. Qed.
+Print Assumptions hooks_establish_sharing.
+
+(* the executable coherence test used by the correspondence check on every state implies the predicate of the theorems *)
+Theorem coherent_b_sound : forall a : agent, coherent_b a = true -> Coherent a.
+Proof. exact coherent_b_sound. Qed.
+Print Assumptions coherent_b_sound.
+
+(* REFUTED — the pinned rl_hyperparam_mutation (before fix 9c077e4: only the FIRST optimizer using the mutated learning
+   rate is re-created) is not coherent: on a TD3-like registry the second critic's optimizer keeps the old learning rate;
+   the repaired mutation of the same individual is coherent. *)
+Theorem hp_first_only_refuted :
+  exists s a h v label,
+    wf_registry (a_reg a) = true /\ Coherent a /\
+    ~ Coherent (snd (mutate_agent_first_only (MHp h v) [] label (s, a))) /\
+    Coherent (snd (mutate_agent (MHp h v) [] label (s, a))).
+Proof. exact hp_first_only_refuted_lemma. Qed.
+Print Assumptions hp_first_only_refuted.
+
+(* non-vacuity: concrete populations satisfy the hypotheses (TD3-like twin critics; DDPG-like shared encoders through a
+   hook; DQN-like re-synchronised target), and a 14-operation history (architecture and lr mutations, training, selection,
+   parameter / activation / no mutation, clone) ends coherent — computed, and also given by the theorem *)
+Example ex_hypotheses : (WfRegs ex_world /\ AllCoherent ex_world) /\ (WfRegs ex_world_share /\ AllCoherent ex_world_share)
+                        /\ (WfRegs ex_world_sync /\ AllCoherent ex_world_sync).
+Proof. exact (conj ex_world_good (conj ex_world_share_good ex_world_sync_good)). Qed.
+Example ex_history_coherent :
+  all_coherent_b (run ex_world ex_history) = true /\ length (w_pop (run ex_world ex_history)) = 3%nat /\
+  AllCoherent (run ex_world ex_history).
+Proof.
+  split; [vm_compute; reflexivity|split; [vm_compute; reflexivity|]].
+  apply generations_coherent; apply ex_world_good.
+Qed.
+Example ex_share_mutations_coherent :
+  all_coherent_b (run ex_world_share [Mutate 0 MArch [mkShape 1 5 2 1 0 0 1 0; mkShape 3 6 2 1 0 0 1 0] 5;
+                                      Mutate 0 MAct [] 1; Mutate 0 (MHp 11 (1 # 50)) [] 6; Mutate 0 MParam [] 7]) = true.
+Proof. vm_compute. reflexivity. Qed.
